@@ -80,6 +80,12 @@ Proof.
   - rewrite (coll_recv_pair_free (negb V) false _ c H). reflexivity.
 Qed.
 
+(** Whichever constructor installs the stack (`Dispatch::new` or `Dispatch::from_static`), the collector hears about its
+    dispatcher exactly once - so [register_dispatch_once] / [register_dispatch_inner_first] describe both. *)
+Lemma register_dispatch_either_constructor : forall i c,
+  reg_log G c i = fst (call (coll_obj G c) on_register_dispatch arg0).
+Proof. intros i c. unfold reg_log. destruct i; vm_compute install_count; cbn [N.to_nat Pos.to_nat Pos.iter_op repeat_log]; apply app_nil_r. Qed.
+
 Lemma on_subscribe_once : forall c, exists ids,
   build_log G c = ents on_subscribe arg0 ids /\ Permutation ids (coll_recv false on_subscribe c).
 Proof.
